@@ -2,7 +2,11 @@
 
 Proved (Coq, coq/Properties_C06.v): the decision logic — RANSAC iteration bound, estimateModel's success/failure and
 refine discipline, the 3-sigma inlier filter, the best-consensus invariant, reported error < sigma on success,
-outlier-free refit, the one-to-one filter, the ICP exit / best-estimate logic.
+outlier-free refit, the one-to-one filter, the ICP exit / best-estimate logic; "zero displacement returns the identity"
+(point-to-plane estimator for any LDLT / SVD oracle, and the ICP loop model).
+Syntactic source tie (translate/tr_C06_ransac.py -> coq/gen/SrcRansac.v, coq/SrcTieC06.v): RansacIterations
+(constructor, update, get), Ransac::estimateModel over an abstract RansacModel, the exit logic of
+FindRigidTransformationByICP::find are regenerated from the clang AST on every run and proved equal to the models.
 NOT proved (sampled here, labelled as testing): that ICP converges within 0.015 for every displacement of the
 envelope, and that RANSAC's random draws hit an outlier-free sample.
 """
@@ -698,7 +702,12 @@ CHECK = {
             "sigma in {0.01,0.02,0.03}: success, Frobenius <= 0.015, reported error < sigma, no outlier in the refit input. "
             "The sampling engine is a default-constructed std::default_random_engine: a fresh object is deterministic, so no re-run rule "
             "is needed. Non-trivial = bound changes / at least one draw / at least two ICP iterations.",
-    "trusted": ["hand-written models coq/RansacModel.v, coq/IcpModel.v tied by differential execution (this run)",
+    "trusted": ["hand-written models coq/RansacModel.v, coq/IcpModel.v: RansacIterations, Ransac::estimateModel and the ICP exit logic "
+                "are tied syntactically (translate/tr_C06_ransac.py: clang AST -> coq/gen/SrcRansac.v, equality proved in "
+                "coq/SrcTieC06.v; trusted: clang's AST dump and the translator's reading of it, listed in its docstring) AND by "
+                "differential execution; the rigid model (countInliers / check_ / store) and the one-to-one filter only by "
+                "differential execution (this run)",
+                "point-to-plane estimator / LeastSquares models (coq/P2pModel.v, coq/LsModel.v) are those of C05 / C07, tied there",
                 "translator translate/constants.py + translate/tables/C06.json (0.99f, factor 9, 2x draw size, 3/4, ICP 10 / 0.001, RANSAC 1000)",
                 "hook H1 in FindRigidTransformationByICP.cpp (add-only, guarded) reports what the loop did",
                 "std::sort / std::unique of libstdc++ (unique without erase leaves the tail in place; modelled as such)",
@@ -716,13 +725,37 @@ CHECK = {
                 "lexicographic maximum (size, -rmse) of the candidates passing both gates; on success the reported error is < sigma; "
                 "outliers outside every drawn model's gate never reach the refit; the one-to-one filter keeps each source once with a "
                 "nearest target; ICP returns true iff it broke on a successful iteration whose matrix moved < epsilon; its best estimate "
-                "has the minimal rmse. Tied to the code on every run by executing the extracted models against the real classes "
+                "has the minimal rmse. ZERO DISPLACEMENT: when every correspondence pairs a target point with an identical source "
+                "point (any normals, any subset / order / multiplicity, any configured preconditioner, 2D / 3D, Cartesian / "
+                "homogeneous) the point-to-plane estimator model returns exactly the identity matrix for ANY LDLT / SVD oracle "
+                "(all right-hand sides are 0, every solver path returns the parameter vector 0; under the right-inverse contract "
+                "0 is the only solution of the normal equations), and if every successful iteration's transformation is the "
+                "identity the ICP loop model reports success at the first iteration whose step-difference test is evaluated and "
+                "hands out the identity; on the RANSAC rigid model with identical pairs and the identity as candidate every "
+                "residual is 0, the consensus is the whole correspondence list with rmse 0, check_ accepts the sample and "
+                "estimateModel returns true at the first draw with the full consensus handed to refine (>= 2 x draw size "
+                "correspondences). "
+                "Tied to the code on every run (a) SYNTACTICALLY: translate/tr_C06_ransac.py regenerates from the clang AST "
+                "RansacIterations (constructor, update incl. the EPSILON clamps, the size_t truncation and std::min, get), "
+                "Ransac::estimateModel as a program over an abstract RansacModel (early return, while loop, draw / countInliers / "
+                "best-consensus test through the float variable / update / final test / refine) and the exit logic of "
+                "FindRigidTransformationByICP::find (block after a successful estimateModel, loop header, return), and "
+                "coq/SrcTieC06.v proves them equal to iters_init / iters_update / iters_get (every numeric dictionary), estimate "
+                "(every dictionary with an order-preserving integer conversion; the reals) and icp_step / icp_run (every "
+                "dictionary): theorems C06_source_tie_*; (b) by executing the extracted models against the real classes "
                 "(scripted RansacModel, derived rigid model, hook-H1 replay of the ICP loop). NOT proved: convergence within 0.015 "
-                "over the envelope and the success of the random draws — these are sampled (failing-input search) and reported as testing.",
-        "note": "Trusted: Coq kernel; real-number axioms; hand-written models tied only by differential execution; hook H1; "
-                "libstdc++ sort/unique; extraction; numf.ml; harness and oracle. Kd-tree, normals, SVD/LS estimators, <random> are "
-                "abstract (oracle arguments). Floating point is observed, not proved.",
-        "technique": "Coq proof (induction over update / draw / iteration sequences) + extracted-model correspondence run + "
-                     "envelope sampling (testing) for the convergence claim",
+                "over the envelope and the success of the random draws — these are sampled (failing-input search) and reported as "
+                "testing; also not proved: that at zero displacement the kd-tree pairs every point with itself (C08's property) "
+                "and that RANSAC's drawn samples pass its gates (sampled: the grid contains the zero displacement, oracle demands "
+                "the identity within 0.015).",
+        "note": "Trusted: Coq kernel; real-number axioms; clang's JSON AST and the plug-in translator tr_C06_ransac.py (conventions: "
+                "size_t -> Z, integer->float conversion = f32round, double->size_t = ntruncZ, virtual calls on ransacModel_ = "
+                "function arguments threading the object, Eigen (A-B).array().abs().sum() = mat_absdiff, the rest of the ICP loop "
+                "body only checked not to touch the loop variables); the rigid model / one-to-one filter tied only by differential "
+                "execution; hook H1; libstdc++ sort/unique; extraction; numf.ml; harness and oracle. Kd-tree, normals, the SVD "
+                "estimator, <random> are abstract (oracle arguments). Floating point is observed, not proved.",
+        "technique": "Coq proof (induction over update / draw / iteration sequences; linear algebra over the reals for the "
+                     "zero-displacement clause) + clang-AST translator with generated-term tie lemmas + extracted-model "
+                     "correspondence run + envelope sampling (testing) for the convergence claim",
     },
 }
